@@ -8,12 +8,14 @@ package stdlib
 
 import (
 	"bytes"
+	"errors"
 	"os"
 	"path"
 	"path/filepath"
 	"strings"
 	"sync"
 	"sync/atomic"
+	"syscall"
 
 	"github.com/go-python/gpython/py"
 	"github.com/go-python/gpython/stdlib/marshal"
@@ -187,11 +189,20 @@ func (ctx *context) ResolveAndCompile(pathname string, opts py.CompileOpts) (py.
 			_, err = os.Stat(fpath)
 		}
 
+		// A component of the path that is not a directory (a regular
+		// file among the search paths) cannot hold the file either
+		if errors.Is(err, syscall.ENOTDIR) {
+			err = os.ErrNotExist
+		}
+
 		ext := strings.ToLower(filepath.Ext(fpath))
 		if ext == "" && os.IsNotExist(err) {
 			fpath += ".py"
 			ext = ".py"
 			_, err = os.Stat(fpath)
+			if errors.Is(err, syscall.ENOTDIR) {
+				err = os.ErrNotExist
+			}
 		}
 
 		// Keep searching while we get FNFs, stop on an error
